@@ -61,6 +61,14 @@ _DATA_DTYPES = (
 )
 
 
+def _axis_equal(left: npt.NDArray[Any], right: npt.NDArray[Any]) -> bool:
+    if left.dtype == right.dtype:
+        return bool(np.array_equal(left, right))
+    # NumPy compares arrays of different dtypes after promoting them (e.g. int64 and float64 to
+    # float64), which is not exact for large integers. Python compares the values exactly.
+    return left.shape == right.shape and bool(left.tolist() == right.tolist())
+
+
 @final
 class XYData(Generic[TData]):
     """Two axes (sequences) of numeric values with units information.
@@ -351,8 +359,8 @@ class XYData(Generic[TData]):
         if not isinstance(value, self.__class__):
             return NotImplemented
         return (
-            np.array_equal(self.x_data, value.x_data)
-            and np.array_equal(self.y_data, value.y_data)
+            _axis_equal(self.x_data, value.x_data)
+            and _axis_equal(self.y_data, value.y_data)
             and self.x_units == value.x_units
             and self.y_units == value.y_units
         )
